@@ -1,0 +1,290 @@
+//go:build verif
+
+package broker
+
+// Contracts for the govc verifier (/verif). This file contains comments only
+// and is compiled only with -tags verif; it adds no declarations.
+//
+// The packet handlers of Client are verified as sequential functions against
+// effect contracts over ghost event state that belongs to the running
+// invocation (DESIGN 2.5.2): what this invocation saved in the session, handed
+// to the connection or to the backend, and which tokens it took. The ordering
+// rules of the protocol are preconditions of the later effect ("send PUBREC
+// requires the PUBLISH to be saved"), so they hold on every path and hence at
+// every point at which a failure could strike.
+
+// ---------------------------------------------------------------- ghost state
+//
+// saved[dir][id]: type code of the packet stored in the client's session under
+// id in direction dir (0 incoming, 1 outgoing); 0 = nothing stored.
+//@ ghost saved map[int]map[int]int
+//@ ghost nall int
+//@ ghost authok bool
+//@ ghost nauth int
+//@ ghost nsetup int
+//@ ghost setup_resumed bool
+//@ ghost nrestore int
+//@ ghost npublish int
+//@ ghost pubmsg int
+//@ ghost puback int
+//@ ghost nsubscribe int
+//@ ghost nunsubscribe int
+//@ ghost ndequeue int
+//@ ghost nterminate int
+//@ ghost dtok int
+//@ ghost ptok int
+//@ ghost stok int
+//@ ghost nqueued int
+//@ ghost lastqueued int
+
+// Error sentinels are created once by errors.New and never reassigned.
+//@ global ErrUnexpectedPacket [nonnil] ErrUnexpectedPacket != nil
+//@ global ErrNotAuthorized [nonnil] ErrNotAuthorized != nil
+//@ global ErrMissingSession [nonnil] ErrMissingSession != nil
+//@ global ErrTokenTimeout [nonnil] ErrTokenTimeout != nil
+//@ global ErrClientDisconnected [nonnil] ErrClientDisconnected != nil
+//@ global ErrClientClosed [nonnil] ErrClientClosed != nil
+//
+// Session invariant of the incoming direction: only QoS 2 PUBLISH packets are
+// ever stored there (single SavePacket(Incoming) site: processPublish).
+//@ spec pred incoming_ok() = forall i int {saved[0][i]} :: saved[0][i] == 0 || saved[0][i] == 3
+
+// ---------------------------------------------------------------- interface contracts (assumed for pluggable implementations)
+//
+//@ interface Session.NextID() (id packet.ID)
+//@   ensures [nonzero] id != 0
+//@   modifies nothing
+//@ interface Session.SavePacket(dir session.Direction, pkt packet.Generic) (err error)
+//@   requires [pkt] pkt != nil
+//@   ensures [saved] err == nil ==> saved[dir][idOf(pkt)] == typecode(pkt)
+//@   ensures [others] err == nil ==> forall d int, i int {saved[d][i]} :: d != dir || i != idOf(pkt) ==> saved[d][i] == old(saved[d][i])
+//@   ensures [fail] err != nil ==> saved == old(saved)
+//@   modifies saved
+//@ interface Session.LookupPacket(dir session.Direction, id packet.ID) (pkt packet.Generic, err error)
+//@   ensures [found] err == nil ==> typecode(pkt) == saved[dir][id] && (pkt == nil <==> saved[dir][id] == 0)
+//@   ensures [obj] err == nil && pkt != nil ==> as(pkt, *packet.Publish) != nil && idOf(pkt) == id
+//@   modifies nothing
+//@ interface Session.DeletePacket(dir session.Direction, id packet.ID) (err error)
+//@   ensures [deleted] err == nil ==> saved[dir][id] == 0
+//@   ensures [others] err == nil ==> forall d int, i int {saved[d][i]} :: d != dir || i != id ==> saved[d][i] == old(saved[d][i])
+//@   ensures [fail] err != nil ==> saved == old(saved)
+//@   modifies saved
+//@ interface Session.AllPackets(dir session.Direction) (pkts []packet.Generic, err error)
+//@   ensures [stored] err == nil ==> nall == len(pkts) && forall i int {pkts[i]} :: 0 <= i && i < len(pkts) ==> pkts[i] != nil && typecode(pkts[i]) != 0 && as(pkts[i], *packet.Publish) != nil && saved[dir][idOf(pkts[i])] == typecode(pkts[i]) && idOf(pkts[i]) != 0
+//@   ensures [fresh] fresh(pkts)
+//@   modifies nall
+//
+//@ functype Ack()
+//@   modifies nothing
+//@ functype "func(packet.Generic) error" (pkt packet.Generic) (err error)
+//@   modifies nothing
+//
+//@ interface Backend.Authenticate(client *Client, user string, password string) (ok bool, err error)
+//@   ensures nauth == old(nauth) + 1 && (authok <==> (err == nil && ok))
+//@   modifies nauth, authok
+//@ interface Backend.Setup(client *Client, id string, clean bool) (s Session, resumed bool, err error)
+//@   requires [authenticated] authok
+//@   ensures nsetup == old(nsetup) + 1 && (setup_resumed <==> resumed)
+//@   ensures [config] client.ParallelPublishes <= 1073741824 && client.ParallelSubscribes <= 1073741824 && client.InflightMessages <= 1073741824
+//@   modifies nsetup, setup_resumed, client.MaximumKeepAlive, client.ParallelPublishes, client.ParallelSubscribes, client.InflightMessages, client.TokenTimeout, client.PacketCallback, client.Ref
+//@ interface Backend.Restore(client *Client) (err error)
+//@   ensures nrestore == old(nrestore) + 1
+//@   modifies nrestore
+//@ interface Backend.Subscribe(client *Client, subs []packet.Subscription, ack Ack) (err error)
+//@   ensures nsubscribe == old(nsubscribe) + 1
+//@   modifies nsubscribe
+//@ interface Backend.Unsubscribe(client *Client, topics []string, ack Ack) (err error)
+//@   ensures nunsubscribe == old(nunsubscribe) + 1
+//@   modifies nunsubscribe
+//@ interface Backend.Publish(client *Client, msg *packet.Message, ack Ack) (err error)
+//@   requires [msg] msg != nil
+//@   ensures npublish == old(npublish) + 1 && pubmsg == msg && puback == ack
+//@   modifies npublish, pubmsg, puback
+//@ interface Backend.Dequeue(client *Client) (msg *packet.Message, ack Ack, err error)
+//@   ensures ndequeue == old(ndequeue) + 1
+//@   ensures [qos] err == nil && msg != nil ==> msg.QOS <= 2
+//@   modifies ndequeue
+//@ interface Backend.Terminate(client *Client) (err error)
+//@   ensures nterminate == old(nterminate) + 1
+//@   modifies nterminate
+//@ interface Backend.Log(event LogEvent, client *Client, pkt packet.Generic, msg *packet.Message, err error)
+//@   modifies nothing
+
+// ---------------------------------------------------------------- channel events
+//
+//@ func chan.recv:Client.dequeueTokens(ch int, v int)
+//@   ensures dtok == old(dtok) + 1
+//@   modifies dtok
+//@ func chan.send:Client.dequeueTokens(ch int, v int)
+//@   ensures dtok == old(dtok) - 1
+//@   modifies dtok
+//@ func chan.put:Client.dequeueTokens(ch int, v int)
+//@   modifies nothing
+//@ func chan.put:Client.publishTokens(ch int, v int)
+//@   modifies nothing
+//@ func chan.put:Client.subscribeTokens(ch int, v int)
+//@   modifies nothing
+//@ func chan.recv:Client.publishTokens(ch int, v int)
+//@   ensures ptok == old(ptok) + 1
+//@   modifies ptok
+//@ func chan.send:Client.publishTokens(ch int, v int)
+//@   ensures ptok == old(ptok) - 1
+//@   modifies ptok
+//@ func chan.recv:Client.subscribeTokens(ch int, v int)
+//@   ensures stok == old(stok) + 1
+//@   modifies stok
+//@ func chan.send:Client.subscribeTokens(ch int, v int)
+//@   ensures stok == old(stok) - 1
+//@   modifies stok
+// Channel invariant of the ack queue: it carries non-nil acknowledgement
+// packets (SUBACK, UNSUBACK, PUBACK, PUBCOMP) - obligation at every send,
+// assumption at the receive.
+//@ spec pred isack(p packet.Generic) = p != nil && as(p, *packet.Publish) != nil && (typecode(p) == 4 || typecode(p) == 7 || typecode(p) == 9 || typecode(p) == 11)
+//@ func chan.send:Client.ackQueue(ch int, v packet.Generic)
+//@   requires [carries-ack] isack(v)
+//@   ensures nqueued == old(nqueued) + 1 && lastqueued == as(v, *packet.Publish)
+//@   modifies nqueued, lastqueued
+//@ func chan.recv:Client.ackQueue(ch int, v packet.Generic)
+//@   ensures [carries-ack] isack(v)
+//@   modifies nothing
+
+// ---------------------------------------------------------------- Client
+//
+//@ spec pred client_ok(c *Client) = c.backend != nil && c.conn != nil
+//@ spec pred connected(c *Client) = client_ok(c) && c.session != nil && c.ackQueue != nil && c.publishTokens != nil && c.subscribeTokens != nil && c.dequeueTokens != nil
+//
+//@ writers Client.will: (*Client).processConnect, (*Client).processDisconnect
+//@ writers Client.state: NewClient
+//@ writers Client.session: (*Client).processConnect
+//@ writers Client.backend: NewClient
+//@ writers Client.conn: NewClient
+//@ writers Client.ackQueue: (*Client).processConnect
+//@ writers Client.dequeueTokens: (*Client).processConnect
+//@ writers Client.publishTokens: (*Client).processConnect
+//@ writers Client.subscribeTokens: (*Client).processConnect
+//@ callsites (*Client).cleanup: NewClient$1
+//@ callsites (*Client).processConnect: (*Client).processor
+//@ callsites (*Client).send: (*Client).processConnect, (*Client).processPingreq, (*Client).processPublish, (*Client).processPubrec, (*Client).processPubrel, (*Client).dequeuer, (*Client).acker
+//@ invokes Conn.Send: (*Client).send
+//@ invokes Session.SavePacket(0): (*Client).processPublish
+//@ invokes Session.SavePacket(1): (*Client).dequeuer, (*Client).processPubrec
+//@ invokes Session.DeletePacket(1): (*Client).processPubackAndPubcomp
+//@ invokes Session.DeletePacket(0): (*Client).acker
+//@ invokes Backend.Setup: (*Client).processConnect
+//@ invokes Backend.Terminate: (*Client).cleanup
+//@ sends Client.ackQueue: (*Client).processSubscribe$1$1, (*Client).processUnsubscribe$1$1, (*Client).processPublish$1$1, (*Client).processPubrel$1$1
+//@ selectsends Client.ackQueue: nothing
+//@ selectsends Client.dequeueTokens: (*Client).processConnect
+//@ selectsends Client.publishTokens: (*Client).processConnect
+//@ selectsends Client.subscribeTokens: (*Client).processConnect
+//@ closureuse (*Client).processPublish$1: Backend.Publish
+//@ closureuse (*Client).processPubrel$1: Backend.Publish
+//@ closureuse (*Client).processSubscribe$1: Backend.Subscribe
+//@ closureuse (*Client).processUnsubscribe$1: Backend.Unsubscribe
+//
+// send: the protocol's ordering rules are its preconditions.
+//@ func (c *Client) send(pkt packet.Generic, async bool) (err error)
+//@   requires [client] client_ok(c)
+//@   requires [pkt] pkt != nil && typecode(pkt) != 0 && as(pkt, *packet.Publish) != nil
+//@   requires [rec-after-save]      istype(pkt, *packet.Pubrec) ==> saved[0][idOf(pkt)] == 3
+//@   requires [release-before-comp] istype(pkt, *packet.Pubcomp) ==> saved[0][idOf(pkt)] == 0
+//@   requires [save-before-send]    istype(pkt, *packet.Publish) && as(pkt, *packet.Publish).Message.QOS > 0 ==> saved[1][idOf(pkt)] == 3 && idOf(pkt) != 0
+//@   requires [pubrel-after-save]   istype(pkt, *packet.Pubrel) ==> saved[1][idOf(pkt)] == 6
+//@   requires [one-connack]         istype(pkt, *packet.Connack) ==> nsent[2] == 0
+//@   ensures [count]     err == nil ==> nsent[typecode(pkt)] == old(nsent[typecode(pkt)]) + 1 && nsentall == old(nsentall) + 1 && lastid[typecode(pkt)] == idOf(pkt)
+//@   ensures [others]    err == nil ==> forall t int {nsent[t]} :: t != typecode(pkt) ==> nsent[t] == old(nsent[t])
+//@   ensures [others-id] err == nil ==> forall t int {lastid[t]} :: t != typecode(pkt) ==> lastid[t] == old(lastid[t])
+//@   ensures [connack]   err == nil && istype(pkt, *packet.Connack) ==> (connack_sp <==> as(pkt, *packet.Connack).SessionPresent) && connack_code == as(pkt, *packet.Connack).ReturnCode
+//@   ensures [noconnack] !(err == nil && istype(pkt, *packet.Connack)) ==> (connack_sp <==> old(connack_sp)) && connack_code == old(connack_code)
+//@   ensures [dup]       nnodup == old(nnodup) + (err == nil && istype(pkt, *packet.Publish) && !as(pkt, *packet.Publish).Dup ? 1 : 0)
+//@   ensures [pubq]      npubq == old(npubq) + (err == nil && istype(pkt, *packet.Publish) && as(pkt, *packet.Publish).Message.QOS > 0 ? 1 : 0)
+//@   ensures [fail]      err != nil ==> nsent == old(nsent) && nsentall == old(nsentall) && lastid == old(lastid)
+//@   modifies nsent, nsentall, lastid, connack_sp, connack_code, nnodup, npubq
+//
+//@ func (c *Client) die(event LogEvent, err error) (res error)
+//@   requires [client] client_ok(c)
+//@   ensures [same] res == err
+//@   modifies nclose, tdying[c.tomb]
+//
+//@ func (c *Client) processPingreq() (err error)
+//@   requires [client] client_ok(c)
+//@   ensures [pingresp] err == nil ==> nsent[13] == old(nsent[13]) + 1 && nsentall == old(nsentall) + 1
+//@   modifies nsent, nsentall, lastid, connack_sp, connack_code, nnodup, npubq, nclose, tdying[c.tomb]
+//
+//@ func (c *Client) processDisconnect() (err error)
+//@   requires [client] client_ok(c)
+//@   ensures [clean] c.will == nil && c.state == 2 && err != nil
+//@   modifies c.will, c.state, nclose, tdying[c.tomb]
+//
+//@ func (c *Client) processPubackAndPubcomp(id packet.ID) (err error)
+//@   requires [client] connected(c)
+//@   ensures [released] err == nil ==> saved[1][id] == 0
+//@   ensures [one-token] old(dtok) - 1 <= dtok && dtok <= old(dtok)
+//@   ensures [others] err == nil ==> forall d int, i int {saved[d][i]} :: d != 1 || i != id ==> saved[d][i] == old(saved[d][i])
+//@   modifies saved, dtok, nclose, tdying[c.tomb]
+//
+//@ func (c *Client) processPubrec(id packet.ID) (err error)
+//@   requires [client] connected(c)
+//@   ensures [pubrel] err == nil ==> saved[1][id] == 6 && nsent[6] == old(nsent[6]) + 1 && lastid[6] == id
+//@   modifies saved, nsent, nsentall, lastid, connack_sp, connack_code, nnodup, npubq, nclose, tdying[c.tomb]
+//
+//@ func (c *Client) processPublish(publish *packet.Publish) (err error)
+//@   requires [client] connected(c)
+//@   requires [pkt] publish != nil && publish.Message.QOS <= 2 && (publish.Message.QOS > 0 ==> publish.ID != 0)
+//@   ensures [qos2-recorded-then-rec] err == nil && publish.Message.QOS == 2 ==> saved[0][publish.ID] == 3 && nsent[5] == old(nsent[5]) + 1 && lastid[5] == publish.ID && npublish == old(npublish)
+//@   ensures [handed-on] err == nil && publish.Message.QOS <= 1 ==> npublish == old(npublish) + 1 && pubmsg == publish.Message
+//@   ensures [ack-closure] err == nil && publish.Message.QOS == 1 ==> puback != 0
+//@   ensures [no-direct-ack] nsent[4] == old(nsent[4]) && nsent[7] == old(nsent[7]) && nqueued == old(nqueued)
+//@   ensures [incoming] old(incoming_ok()) ==> incoming_ok()
+//@   modifies saved, nsent, nsentall, lastid, connack_sp, connack_code, nnodup, npubq, npublish, pubmsg, puback, ptok, nclose, tdying[c.tomb]
+//
+//@ func (c *Client) processPubrel(id packet.ID) (err error)
+//@   requires [client] connected(c)
+//@   requires [incoming] incoming_ok()
+//@   ensures [known]   err == nil && old(saved[0][id]) == 3 ==> npublish == old(npublish) + 1 && puback != 0 && nsent[7] == old(nsent[7])
+//@   ensures [unknown] err == nil && old(saved[0][id]) != 3 ==> nsent[7] == old(nsent[7]) + 1 && lastid[7] == id && npublish == old(npublish)
+//@   ensures [always-pubcomp] err == nil ==> nsent[7] == old(nsent[7]) + 1 || (npublish == old(npublish) + 1 && puback != 0)
+//@   ensures [kept] saved == old(saved)
+//@   modifies nsent, nsentall, lastid, connack_sp, connack_code, nnodup, npubq, npublish, pubmsg, puback, nclose, tdying[c.tomb]
+//@   at call 1 Publish assert [pubcomp-id] pubcomp.ID == id && as(pkt, *packet.Publish) == publish
+
+// Session invariant of the outgoing direction: the broker stores only PUBLISH
+// (dequeuer) and PUBREL (processPubrec) packets there.
+//@ spec pred outgoing_ok() = forall i int {saved[1][i]} :: saved[1][i] == 0 || saved[1][i] == 3 || saved[1][i] == 6
+
+// acker: every acknowledgement released by the backend is written; a PUBCOMP
+// only after the stored PUBLISH was released (send's precondition).
+//@ func (c *Client) acker() (err error)
+//@   requires [client] connected(c)
+//@   ensures [err] err != nil
+//@   modifies saved, nsent, nsentall, lastid, connack_sp, connack_code, nnodup, npubq, ptok, stok, nclose, tdying[c.tomb]
+//
+// dequeuer: tokens held by this invocation are never fewer than the QoS>0
+// publishes it has sent (a token is taken per dequeue and given back in the
+// same iteration only for QoS 0); a QoS>0 publish is saved before it is sent
+// (send's precondition).
+//@ func (c *Client) dequeuer() (err error)
+//@   requires [client] connected(c)
+//@   ensures [err] err != nil
+//@   modifies saved, dtok, ndequeue, nsent, nsentall, lastid, connack_sp, connack_code, nnodup, npubq, nclose, tdying[c.tomb]
+//@   loop 1 invariant [window] dtok - old(dtok) >= npubq - old(npubq)
+//
+//@ func (c *Client) processConnect(pkt *packet.Connect) (err error)
+//@   requires [client] client_ok(c) && pkt != nil
+//@   requires [first] nsent[2] == 0 && c.state == 0
+//@   requires [outgoing] outgoing_ok()
+//@   ensures [one-connack] nsent[2] <= 1
+//@   ensures [rejected] !authok ==> err != nil && nsetup == old(nsetup) && c.will == old(c.will) && c.state == old(c.state) && c.session == old(c.session) && nsentall <= old(nsentall) + 1 && nsentall == old(nsentall) + nsent[2] && (nsent[2] == 1 ==> connack_code == 5) && npublish == old(npublish) && nsubscribe == old(nsubscribe) && nrestore == old(nrestore)
+//@   ensures [accepted] err == nil ==> authok && nsetup == old(nsetup) + 1 && connected(c) && c.state == 1 && nsent[2] == 1 && connack_code == 0
+//@   ensures [session-present] err == nil ==> (connack_sp <==> (!pkt.CleanSession && setup_resumed))
+//@   ensures [will] err == nil ==> (pkt.Will != nil ==> c.will == pkt.Will) && (pkt.Will == nil ==> c.will == old(c.will))
+//@   ensures [will-only-accepted] c.will != old(c.will) ==> authok && nsetup == old(nsetup) + 1
+//@   ensures [resend-all] err == nil ==> nsentall == old(nsentall) + 1 + nall
+//@   ensures [resend-dup] nnodup == old(nnodup)
+//@   ensures [resend-window] err == nil ==> dtok - old(dtok) <= nall
+//@   ensures [saved] saved == old(saved)
+//@   modifies c.id, c.state, c.session, c.will, c.MaximumKeepAlive, c.ParallelPublishes, c.ParallelSubscribes, c.InflightMessages, c.TokenTimeout, c.PacketCallback, c.Ref, c.publishTokens, c.subscribeTokens, c.dequeueTokens, c.ackQueue, any(packet.Publish.Dup), nauth, authok, nsetup, setup_resumed, nrestore, nall, nsent, nsentall, lastid, connack_sp, connack_code, nnodup, npubq, dtok, ptok, stok, nclose, tdying[c.tomb]
+//@   loop 4 invariant [resent] 0 <= rangeindex + 1 && rangeindex + 1 <= len(packets) && nall == len(packets) && nsentall == old(nsentall) + 1 + rangeindex + 1 && nnodup == old(nnodup) && nsent[2] == 1 && connack_code == 0 && (connack_sp <==> (!pkt.CleanSession && setup_resumed))
+//@   loop 4 invariant [tokens] dtok - old(dtok) <= rangeindex + 1
+//@   loop 4 invariant [stored] forall i int {packets[i]} :: 0 <= i && i < len(packets) ==> packets[i] != nil && typecode(packets[i]) != 0 && as(packets[i], *packet.Publish) != nil && saved[1][idOf(packets[i])] == typecode(packets[i]) && idOf(packets[i]) != 0
+//@   loop 4 invariant [state] authok && nsetup == old(nsetup) + 1 && connected(c) && c.state == 1 && outgoing_ok() && saved == old(saved) && (pkt.Will != nil ==> c.will == pkt.Will) && (pkt.Will == nil ==> c.will == old(c.will))
